@@ -34,6 +34,7 @@ const (
 	eReorg                      // received on the reorg feed
 	eOnReorg                    // sync listener OnReorg(n)
 	eEpoch                      // the source switched to another chain
+	eRestart                    // Run returned after cancellation; a new Synchronizer was started
 )
 
 type entry struct {
@@ -75,7 +76,8 @@ type recorder struct {
 	lostWait           bool // a drain timed out once: stop waiting
 	lastCommitSeq      int  // log position of the last commit
 	lastStoreOwedReorg bool
-	extra              []*fsub                                 // subscribers that come and go (churn.go)
+	extra              []*fsub // subscribers that come and go (churn.go)
+	plugin             []pluginCall
 	checkStored        func(num uint64, hash felt.Felt) string // "" = content equals the valid block
 }
 
